@@ -6,11 +6,11 @@ CONSTANTS
   SpillOn = TRUE
   SpillMax = 3
   Variant = "asis"
-  Costs = {0, 1, 2, 3}
+  Costs = {1, 2, 3}
   Steps = {1, 2, 3, 4, 7}
   Start = 0
-  MaxNow = 16
-  RenewAt = {8, 14}
+  MaxNow = 11
+  RenewAt = {8}
   GenDepth = 0
   ReqWeight = 1
 SPECIFICATION IPSpec
